@@ -364,15 +364,659 @@ Proof.
   - left. eauto.
 Qed.
 
+Ltac sh_exact :=
+  first [ apply sh_low | apply sh_sidx | apply sh_sbuf | apply sh_shigh2 | apply sh_swk0
+        | apply sh_ridx | apply sh_rbuf | apply sh_rclr | apply sh_rlow2 | apply sh_rwk0
+        | apply sh_wk1 | apply sh_wk2 | apply sh_wk3 | apply sh_wk4 | apply sh_wk5 | apply sh_wk6
+        | apply sh_wt1 | apply sh_wt2 | apply sh_wt3 | apply sh_wt4
+        | apply sh_k; apply (ks_coarse [UAdd 0%nat; UYield]); reflexivity
+        | apply sh_k; apply (ks_coarse [YRead]); reflexivity ].
+
 Lemma binv_step s t : BInv s -> BInv (fst (step s t)).
 Proof.
   intros B. apply binv_of_kstep; [exact B|].
   pose proof (b_shape s B t) as Sh. pose proof (b_nowait s B) as Nw.
   remember (stk s t) as S eqn:ES. remember (csize s) as size eqn:Esz. clear ES.
   destruct Sh as [S K | | | | | | | | | | | | | | | | | | | | ].
+  2-21: cbn.
+  2-21: repeat match goal with
+               | |- context [if ?b then _ else _] => destruct b eqn:?
+               | a : att |- _ => destruct a
+               end; cbn.
+  2-35: (split; [ sh_exact | try exact Nw; try (intros u; cbn; try rewrite wake_slot_wait; apply Nw) ]).
   - destruct (kshaped_step size (mem s) t S K Nw) as [(a & p & k & ->)|P].
-    + cbn. split; [constructor | exact Nw].
+    + cbn. split; [apply sh_low | exact Nw].
     + destruct (kstepC size (mem s) t S) as [[m1 e1] s1]. destruct P as (P1 & _ & P3).
       split; [apply sh_k; exact P1 | exact P3].
-  - cbn. Show.
+Qed.
+
+Lemma reach_excl_binv k progs s : reach_excl k progs s -> BInv s.
+Proof.
+  induction 1 as [|s t R IH St E]; [apply init_binv | apply binv_step; exact IH].
+Qed.
+
+(* ------------------------------------------------------------------ *)
+(* instrumented machine: ghost logs *)
+
+Inductive ghost_ev := GNone | GMsg (x : Z) | GSend | GRecv (r : Z).
+
+(* what the next step of a stack means for the ghosts:
+   GMsg x   the buffer write of send(x)
+   GSend    the write  high := hi + 1  of a send
+   GRecv r  the write  low := lo + 1   of a receive that will return r *)
+Definition gev (S : stack mc) : ghost_ev :=
+  match S with
+  | [CWrite c x; FC (MSBuf _ _)] => GMsg x
+  | [CWrite c v; FC (MWk0 r _ _)] => if Nat.eqb c c_high then GSend else GRecv r
+  | _ => GNone
+  end.
+
+(* pmsg t = the message fiber t is sending; slog = messages in the order of the
+   high := hi+1 writes; rlog = returned values in the order of the low := lo+1 writes *)
+Record ist := { base : st; pmsg : nat -> Z; slog : list Z; rlog : list Z }.
+
+Definition istep (x : ist) (t : nat) : ist :=
+  let s' := fst (step (base x) t) in
+  match gev (stk (base x) t) with
+  | GNone => {| base := s'; pmsg := pmsg x; slog := slog x; rlog := rlog x |}
+  | GMsg v => {| base := s'; pmsg := upd (pmsg x) t v; slog := slog x; rlog := rlog x |}
+  | GSend => {| base := s'; pmsg := pmsg x; slog := slog x ++ [pmsg x t]; rlog := rlog x |}
+  | GRecv r => {| base := s'; pmsg := pmsg x; slog := slog x; rlog := rlog x ++ [r] |}
+  end.
+
+Lemma istep_erase x t : base (istep x t) = fst (step (base x) t).
+Proof. unfold istep. destruct (gev (stk (base x) t)); reflexivity. Qed.
+
+Definition iinit (k : nat) (progs : list (list mop)) : ist :=
+  {| base := init k progs; pmsg := fun _ => 0; slog := []; rlog := [] |}.
+
+Inductive ireach_excl (k : nat) (progs : list (list mop)) : ist -> Prop :=
+| ire_init : ireach_excl k progs (iinit k progs)
+| ire_step x t : ireach_excl k progs x -> status_of (base x) t = SReady ->
+                 excl (base (istep x t)) -> ireach_excl k progs (istep x t).
+
+Lemma ireach_excl_sound k progs x : ireach_excl k progs x -> reach_excl k progs (base x).
+Proof.
+  induction 1 as [|x t R IH St E]; [constructor|].
+  rewrite istep_erase in *. constructor; assumption.
+Qed.
+
+Lemma ireach_excl_complete k progs s :
+  reach_excl k progs s -> exists x, ireach_excl k progs x /\ base x = s.
+Proof.
+  induction 1 as [|s t R (x & Rx & Ex) St E].
+  - exists (iinit k progs). split; [constructor | reflexivity].
+  - exists (istep x t). split.
+    + constructor; [exact Rx | rewrite Ex; exact St | rewrite istep_erase, Ex; exact E].
+    + rewrite istep_erase, Ex. reflexivity.
+Qed.
+
+(* ------------------------------------------------------------------ *)
+(* cells and slots *)
+Ltac cells := unfold c_scr, c_waiters, c_buf, c_high, c_low in *; lia.
+
+Lemma buf_high i : c_buf i <> c_high. Proof. cells. Qed.
+Lemma buf_low i : c_buf i <> c_low. Proof. cells. Qed.
+Lemma buf_waiters i : c_buf i <> c_waiters. Proof. cells. Qed.
+Lemma buf_scr i f : c_buf i <> c_scr f. Proof. cells. Qed.
+Lemma buf_inj i j : c_buf i = c_buf j -> i = j. Proof. cells. Qed.
+Lemma high_low : c_high <> c_low. Proof. cells. Qed.
+Lemma high_waiters : c_high <> c_waiters. Proof. cells. Qed.
+Lemma low_waiters : c_low <> c_waiters. Proof. cells. Qed.
+Lemma high_scr f : c_high <> c_scr f. Proof. cells. Qed.
+Lemma low_scr f : c_low <> c_scr f. Proof. cells. Qed.
+
+Lemma bidx_inj size i j :
+  0 < size -> - size < i - j < size -> bidx size i = bidx size j -> i = j.
+Proof.
+  intros Hs Hd H. unfold bidx in H.
+  pose proof (Z.mod_pos_bound i size Hs). pose proof (Z.mod_pos_bound j size Hs).
+  apply Z2Nat.inj in H; try lia.
+  pose proof (Z.div_mod i size ltac:(lia)). pose proof (Z.div_mod j size ltac:(lia)).
+  assert (size * (i / size - j / size) = i - j) by lia.
+  assert (i / size - j / size = 0) by nia. lia.
+Qed.
+
+Lemma bidx_shift size i : 0 < size -> bidx size (i + size) = bidx size i.
+Proof.
+  intros Hs. unfold bidx. f_equal.
+  replace (i + size) with (i + 1 * size) by lia. apply Z_mod_plus_full.
+Qed.
+
+Definition Zlen (l : list Z) : Z := Z.of_nat (length l).
+Definition nthz (l : list Z) (i : Z) : Z := nth (Z.to_nat i) l 0.
+
+Lemma Zlen_app l v : Zlen (l ++ [v]) = Zlen l + 1.
+Proof. unfold Zlen. rewrite app_length. cbn. lia. Qed.
+
+Lemma nthz_app_l l v i : 0 <= i < Zlen l -> nthz (l ++ [v]) i = nthz l i.
+Proof. unfold nthz, Zlen. intros H. apply app_nth1. lia. Qed.
+
+Lemma nthz_app_r l v : nthz (l ++ [v]) (Zlen l) = v.
+Proof.
+  unfold nthz, Zlen. rewrite Nat2Z.id. rewrite app_nth2 by lia.
+  rewrite Nat.sub_diag. reflexivity.
+Qed.
+
+Lemma firstn_snoc (l : list Z) n : (n < length l)%nat -> firstn (S n) l = firstn n l ++ [nth n l 0].
+Proof.
+  revert l. induction n as [|n IH]; intros [|a l] H; cbn in *; try lia; [reflexivity|].
+  rewrite <- IH by lia. reflexivity.
+Qed.
+
+(* the buffer, relative to the counters and the log of sends:
+   slots of the window [low, low+size) hold the logged messages below high and
+   0 from high on; ss / sr: except slot high (a send wrote it, high not yet
+   advanced) / except slot low (a receive cleared it, low not yet advanced) *)
+Definition Bf (C : nat -> Z) (size low high : Z) (sl : list Z) (ss sr : bool) : Prop :=
+  forall i, low <= i < low + size ->
+            (ss = true -> i <> high) -> (sr = true -> i <> low) ->
+            C (c_buf (bidx size i)) = if i <? high then nthz sl i else 0.
+
+Lemma Bf_frame C C' size low high sl ss sr :
+  (forall j, C' (c_buf j) = C (c_buf j)) -> Bf C size low high sl ss sr -> Bf C' size low high sl ss sr.
+Proof. intros H B i Hi H1 H2. rewrite H. apply B; assumption. Qed.
+
+Lemma Bf_send_write C size low high sl x :
+  0 < size -> low <= high -> high - low < size ->
+  Bf C size low high sl false false ->
+  Bf (upd C (c_buf (bidx size high)) x) size low high sl true false.
+Proof.
+  intros Hs Hlh Hr B i Hi H1 _. specialize (H1 eq_refl).
+  rewrite upd_other.
+  - apply B; [exact Hi | discriminate | discriminate].
+  - intros E. apply buf_inj in E. apply bidx_inj in E; [contradiction | exact Hs | lia].
+Qed.
+
+Lemma Bf_send_commit C C' size low high sl v :
+  0 <= low -> low <= high -> high = Zlen sl ->
+  (forall j, C' (c_buf j) = C (c_buf j)) ->
+  C (c_buf (bidx size high)) = v ->
+  Bf C size low high sl true false ->
+  Bf C' size low (high + 1) (sl ++ [v]) false false.
+Proof.
+  intros H0 Hlh Hlen HC Hv B i Hi _ _. rewrite HC.
+  destruct (Z.eq_dec i high) as [->|Ne].
+  - assert (high <? high + 1 = true) as -> by (apply Z.ltb_lt; lia).
+    rewrite Hlen at 2. rewrite nthz_app_r. exact Hv.
+  - rewrite (B i Hi (fun _ => Ne)) by discriminate.
+    destruct (Z.ltb_spec i high); destruct (Z.ltb_spec i (high + 1)); try lia; try reflexivity.
+    symmetry. apply nthz_app_l. lia.
+Qed.
+
+Lemma Bf_recv_clear C size low high sl :
+  0 < size ->
+  Bf C size low high sl false false ->
+  Bf (upd C (c_buf (bidx size low)) 0) size low high sl false true.
+Proof.
+  intros Hs B i Hi _ H2. specialize (H2 eq_refl).
+  rewrite upd_other.
+  - apply B; [exact Hi | discriminate | discriminate].
+  - intros E. apply buf_inj in E. apply bidx_inj in E; [contradiction | exact Hs | lia].
+Qed.
+
+Lemma Bf_recv_commit C C' size low high sl :
+  0 < size -> high <= low + size ->
+  (forall j, C' (c_buf j) = C (c_buf j)) ->
+  C (c_buf (bidx size low)) = 0 ->
+  Bf C size low high sl false true ->
+  Bf C' size (low + 1) high sl false false.
+Proof.
+  intros Hs Hh HC Hz B i Hi _ _. rewrite HC.
+  destruct (Z.eq_dec i (low + size)) as [->|Ne].
+  - rewrite bidx_shift by exact Hs. rewrite Hz.
+    destruct (Z.ltb_spec (low + size) high); [lia | reflexivity].
+  - apply B; [lia | discriminate | intros _; lia].
+Qed.
+
+(* ------------------------------------------------------------------ *)
+(* the invariant *)
+
+(* counters and logs: C = client cells, sl / rl = ghost logs *)
+Record Cn (C : nat -> Z) (size : Z) (sl rl : list Z) : Prop := {
+  cn_hi : C c_high = Zlen sl;
+  cn_lo : C c_low = Zlen rl;
+  cn_pre : rl = firstn (length rl) sl;
+  cn_ord : C c_low <= C c_high <= C c_low + size
+}.
+
+(* what the lock holder knows, by continuation (f = the access on top of it);
+   pm = the message this fiber is sending *)
+Definition cs_inv2 (C : nat -> Z) (size : Z) (sl : list Z) (pm : Z) (f : frame mc) (c : mc) : Prop :=
+  let hi := C c_high in
+  let lo := C c_low in
+  match c with
+  | MNext _ _ | MLocked _ _ _ | MUnl _ _ _ | MWt5 _ _ _ => True
+  | MLow _ h _ _ => Bf C size lo hi sl false false /\ h = hi
+  | MSIdx _ _ _ => Bf C size lo hi sl false false /\ hi - lo < size
+  | MSBuf _ _ =>
+      Bf C size lo hi sl false false /\ hi - lo < size /\
+      match f with CWrite a _ => a = c_buf (bidx size hi) | _ => True end
+  | MSHigh2 _ _ =>
+      Bf C size lo hi sl true false /\ hi - lo < size /\ C (c_buf (bidx size hi)) = pm
+  | MWk0 r _ _ =>
+      match f with
+      | CWrite a v =>
+          if Nat.eqb a c_high
+          then v = hi + 1 /\ Bf C size lo hi sl true false /\ hi - lo < size /\
+               C (c_buf (bidx size hi)) = pm
+          else v = lo + 1 /\ Bf C size lo hi sl false true /\ C (c_buf (bidx size lo)) = 0 /\
+               r = nthz sl lo /\ lo < hi
+      | _ => True
+      end
+  | MRIdx _ _ => Bf C size lo hi sl false false /\ lo < hi
+  | MRBuf i _ _ => Bf C size lo hi sl false false /\ lo < hi /\ i = bidx size lo
+  | MRClr m _ _ =>
+      Bf C size lo hi sl false false /\ lo < hi /\ m = nthz sl lo /\
+      match f with CWrite a _ => a = c_buf (bidx size lo) | _ => True end
+  | MRLow2 m _ _ =>
+      Bf C size lo hi sl false true /\ C (c_buf (bidx size lo)) = 0 /\ m = nthz sl lo /\ lo < hi
+  | _ => Bf C size lo hi sl false false
+  end.
+
+Definition Cx (x : ist) : nat -> Z := cell (mem (base x)).
+Definition sz (x : ist) : Z := csize (base x).
+
+Definition cs_inv (x : ist) (t : nat) : Prop :=
+  match cs_of (stk (base x) t) with
+  | Some (f, c) => cs_inv2 (Cx x) (sz x) (slog x) (pmsg x t) f c
+  | None => True
+  end.
+
+(* requirement on the new stack of the stepping fiber *)
+Definition cs_new (x : ist) (t : nat) (S : stack mc) : Prop :=
+  match cs_of S with
+  | Some (f, c) => cs_inv2 (Cx x) (sz x) (slog x) (pmsg x t) f c
+  | None => Bf (Cx x) (sz x) (Cx x c_low) (Cx x c_high) (slog x) false false
+  end.
+
+Record GInv (x : ist) : Prop := {
+  g_cn : Cn (Cx x) (sz x) (slog x) (rlog x);
+  g_cs : forall t, cs_inv x t;
+  g_q : (forall t, cs_of (stk (base x) t) = None) ->
+        Bf (Cx x) (sz x) (Cx x c_low) (Cx x c_high) (slog x) false false
+}.
+
+Lemma init_ginv k progs : GInv (iinit k progs).
+Proof.
+  constructor.
+  - constructor; cbn; try reflexivity. unfold Cx, sz. cbn.
+    assert (0 < 2 ^ Z.of_nat k) by (apply Z.pow_pos_nonneg; lia). lia.
+  - intros t. unfold cs_inv. cbn. exact I.
+  - intros _ i Hi _ _. unfold Cx. cbn.
+    destruct (i <? 0); [|reflexivity]. unfold nthz. destruct (Z.to_nat i); reflexivity.
+Qed.
+
+(* a step of the lock holder inside the critical section *)
+Lemma g_step_cs x x' t S' :
+  GInv x -> excl (base x) -> cs_of (stk (base x) t) <> None ->
+  stk (base x') = upd (stk (base x)) t S' ->
+  Cn (Cx x') (sz x') (slog x') (rlog x') -> cs_new x' t S' -> GInv x'.
+Proof.
+  intros G E Ht Hs HC HN.
+  assert (Oth : forall u, u <> t -> cs_of (stk (base x) u) = None).
+  { intros u Hu. destruct (cs_of (stk (base x) u)) eqn:Eu; [|reflexivity].
+    exfalso. apply Hu. apply E; apply cs_of_holds; congruence. }
+  constructor.
+  - exact HC.
+  - intros u. unfold cs_inv. rewrite Hs. destruct (Nat.eq_dec u t) as [->|Hu].
+    + rewrite upd_same. unfold cs_new in HN. destruct (cs_of S') as [[f c]|]; [exact HN | exact I].
+    + rewrite upd_other by exact Hu. rewrite (Oth u Hu). exact I.
+  - intros Hall. specialize (Hall t). rewrite Hs, upd_same in Hall.
+    unfold cs_new in HN. rewrite Hall in HN. exact HN.
+Qed.
+
+Lemma kshaped_cs_of S : kshaped S -> cs_of S = None \/ exists a p k, S = [CRead c_high; FC (MHigh a p k)].
+Proof.
+  intros [|l c Hl Hc|a p k]; [left; reflexivity | left | right; eauto].
+  unfold ccont in Hc. apply negb_true_iff in Hc.
+  destruct l as [|f [|g [|h l]]]; cbn; try reflexivity.
+  - rewrite Hc. reflexivity.
+  - destruct g; reflexivity.
+  - destruct g; reflexivity.
+Qed.
+
+Lemma kshaped_gev S : kshaped S -> gev S = GNone.
+Proof.
+  intros [|l c Hl Hc|a p k]; try reflexivity.
+  destruct l as [|f l]; [reflexivity|].
+  cbn [forallb] in Hl. apply andb_prop in Hl. destruct Hl as [Hf _].
+  destruct f; try discriminate; reflexivity.
+Qed.
+
+(* a step of a fiber outside the critical section *)
+Lemma g_step_k x t :
+  BInv (base x) -> GInv x -> kshaped (stk (base x) t) -> cs_of (stk (base x) t) = None ->
+  excl (base (istep x t)) -> GInv (istep x t).
+Proof.
+  intros B G K Hn E'.
+  unfold istep in *. rewrite (kshaped_gev _ K) in *. cbn [base] in E'.
+  destruct (kshaped_step (csize (base x)) (mem (base x)) t _ K (b_nowait _ B)) as [(a & p & k & Eq)|P].
+  { rewrite Eq in Hn. discriminate. }
+  unfold step in *. destruct (kstepC (csize (base x)) (mem (base x)) t (stk (base x) t)) as [[m1 e1] s1].
+  cbn [fst] in *. destruct P as (K1 & Cm & _).
+  constructor; unfold cs_inv, Cx, sz; cbn [base mem stk csize pmsg slog rlog].
+  - rewrite Cm. apply (g_cn x G).
+  - intros u. destruct (Nat.eq_dec u t) as [->|Hu].
+    + rewrite upd_same. destruct (kshaped_cs_of s1 K1) as [->|(a & p & k & ->)]; [exact I|].
+      cbn. rewrite Cm. apply (g_q x G). intros u. destruct (Nat.eq_dec u t) as [->|Hu]; [exact Hn|].
+      destruct (cs_of (stk (base x) u)) eqn:Eu; [|reflexivity]. exfalso. apply Hu.
+      apply E'; apply cs_of_holds; cbn [stk].
+      * rewrite upd_other by exact Hu. rewrite Eu. discriminate.
+      * rewrite upd_same. cbn. discriminate.
+    + rewrite upd_other by exact Hu. rewrite Cm. apply (g_cs x G u).
+  - intros Hall. rewrite Cm. apply (g_q x G). intros u. destruct (Nat.eq_dec u t) as [->|Hu]; [exact Hn|].
+    specialize (Hall u). rewrite upd_other in Hall by exact Hu. exact Hall.
+Qed.
+
+Ltac ne_cells := unfold c_scr, c_waiters, c_buf, c_high, c_low; lia.
+
+Lemma Cn_frame C C' size sl rl :
+  C' c_high = C c_high -> C' c_low = C c_low -> Cn C size sl rl -> Cn C' size sl rl.
+Proof. intros H1 H2 [A B D E]. constructor; rewrite ?H1, ?H2; assumption. Qed.
+
+Lemma Bf_frame2 C C' size sl ss sr :
+  (forall j, C' (c_buf j) = C (c_buf j)) -> C' c_high = C c_high -> C' c_low = C c_low ->
+  Bf C size (C c_low) (C c_high) sl ss sr -> Bf C' size (C' c_low) (C' c_high) sl ss sr.
+Proof. intros H H1 H2 B. rewrite H1, H2. apply (Bf_frame C); assumption. Qed.
+
+Lemma prefix_len_le (sl rl : list Z) hi lo :
+  hi = Zlen sl -> lo = Zlen rl -> lo <= hi -> (length rl <= length sl)%nat.
+Proof. unfold Zlen. lia. Qed.
+
+Lemma Cn_send C size sl rl v x :
+  Cn C size sl rl -> v = C c_high + 1 -> C c_high - C c_low < size ->
+  Cn (upd C c_high v) size (sl ++ [x]) rl.
+Proof.
+  intros [A B D E] Hv Hr. constructor.
+  - rewrite upd_same, Zlen_app. lia.
+  - rewrite upd_other by ne_cells. exact B.
+  - rewrite firstn_app.
+    assert (length rl <= length sl)%nat by (unfold Zlen in *; lia).
+    replace (length rl - length sl)%nat with 0%nat by lia. cbn [firstn]. rewrite app_nil_r. exact D.
+  - rewrite upd_same. rewrite upd_other by ne_cells. lia.
+Qed.
+
+Lemma Cn_recv C size sl rl v m :
+  Cn C size sl rl -> v = C c_low + 1 -> C c_low < C c_high -> m = nth (Z.to_nat (C c_low)) sl 0 ->
+  Cn (upd C c_low v) size sl (rl ++ [m]).
+Proof.
+  intros [A B D E] Hv Hr Hm. constructor.
+  - rewrite upd_other by ne_cells. exact A.
+  - rewrite upd_same, Zlen_app. lia.
+  - rewrite app_length. cbn [length]. rewrite Nat.add_1_r.
+    assert (length rl < length sl)%nat by (unfold Zlen in *; lia).
+    rewrite firstn_snoc by assumption. rewrite <- D. f_equal. f_equal.
+    rewrite Hm, B. unfold Zlen. rewrite Nat2Z.id. reflexivity.
+  - rewrite upd_same. rewrite upd_other by ne_cells. lia.
+Qed.
+
+Lemma ginv_step x t :
+  BInv (base x) -> GInv x -> excl (base x) -> excl (base (istep x t)) -> GInv (istep x t).
+Proof.
+  intros B G E E'.
+  pose proof (b_shape _ B t) as Sh.
+  pose proof (b_size _ B) as Hsz.
+  pose proof (g_cn x G) as CN. pose proof CN as [Chi Clo Cpre Cord].
+  pose proof (g_cs x G t) as L. unfold cs_inv in L.
+  destruct x as [s pm sl rl]. unfold Cx, sz in *. cbn [base pmsg slog rlog] in *.
+  remember (stk s t) as S eqn:ES.
+  destruct Sh as [S K | | | | | | | | | | | | | | | | | | | | ].
+  2-21: cbn in L.
+  2-21: unfold istep, step in *; cbn [base] in *; rewrite <- ES in *; cbn in E'; cbn.
+  2-21: repeat match goal with
+               | a : att |- context [match ?a with ASend _ => _ | ARecv => _ end] => destruct a
+               | |- context [if ?b then _ else _] => destruct b eqn:?
+               end; cbn.
+  2-25: (eapply (g_step_cs _ _ t);
+         [ exact G | exact E | cbn [base]; rewrite <- ES; discriminate
+         | cbn; reflexivity
+         | unfold Cx, sz; cbn
+         | unfold cs_new, Cx, sz; cbn ]).
+  (* counters untouched *)
+  all: try exact CN.
+  all: try (apply (Cn_frame (cell (mem s))); [ | | exact CN ]; try rewrite wake_cell; try reflexivity;
+            apply upd_other; ne_cells).
+  all: repeat match goal with H : _ /\ _ |- _ => destruct H end.
+  all: repeat match goal with
+              | H : (_ <? _) = true |- _ => apply Z.ltb_lt in H
+              | H : (_ <? _) = false |- _ => apply Z.ltb_ge in H
+              end.
+  all: try (rewrite wake_cell; cbn [cell set_fstate]).
+  all: rewrite ?(upd_other _ _ _ c_low), ?(upd_other _ _ _ c_high) by ne_cells.
+  all: subst.
+  all: try (repeat split; first [assumption | reflexivity | lia]).
+  all: try (apply (Bf_frame (cell (mem s))); [intros j; apply upd_other; ne_cells | assumption]).
+  - (* outside the critical section, or the first access after acquiring *)
+    destruct (kshaped_cs_of _ K) as [Hn | (a & p & k & Eq)].
+    + apply g_step_k; cbn [base]; assumption.
+    + rewrite Eq in L. cbn in L.
+      unfold istep, step in *; cbn [base] in *; rewrite Eq in *; cbn in E'; cbn.
+      eapply (g_step_cs _ _ t);
+        [ exact G | exact E | cbn [base]; rewrite Eq; discriminate | cbn; reflexivity
+        | unfold Cx, sz; cbn; exact CN
+        | unfold cs_new, Cx, sz; cbn; split; [exact L | reflexivity] ].
+  - (* the buffer write of a send *)
+    match goal with H : c_buf i = c_buf _ |- _ => apply buf_inj in H; subst i end.
+    split; [apply Bf_send_write; try assumption; lia | split; [assumption|]].
+    rewrite !upd_same. reflexivity.
+  - (* high := high + 1 *)
+    apply Cn_send; [exact CN | reflexivity | assumption].
+  - apply (Bf_send_commit (cell (mem s)));
+      first [assumption | (intros j; apply upd_other; ne_cells) | (unfold Zlen in *; lia)].
+  - (* the buffer read of a receive *)
+    repeat split; try assumption; try reflexivity.
+    match goal with H : Bf _ _ _ _ _ false false |- _ =>
+      pose proof (H (cell (mem s) c_low) ltac:(lia) ltac:(discriminate) ltac:(discriminate)) as Q end.
+    rewrite (proj2 (Z.ltb_lt _ _)) in Q by assumption. exact Q.
+  - (* the buffer clear of a receive *)
+    match goal with H : c_buf i = c_buf _ |- _ => apply buf_inj in H; subst i end.
+    split; [apply Bf_recv_clear; assumption | split; [apply upd_same | split; [reflexivity | assumption]]].
+  - (* low := low + 1 *)
+    apply Cn_recv; [exact CN | reflexivity | assumption | reflexivity].
+  - apply (Bf_recv_commit (cell (mem s)));
+      first [assumption | (intros j; apply upd_other; ne_cells) | (unfold Zlen in *; lia)].
+Qed.
+
+Theorem ireach_excl_ginv k progs x : ireach_excl k progs x -> GInv x.
+Proof.
+  induction 1 as [|x t R IH St E]; [apply init_ginv|].
+  pose proof (ireach_excl_sound _ _ _ R) as Rs.
+  apply ginv_step; [exact (reach_excl_binv _ _ _ Rs) | exact IH | exact (reach_excl_excl _ _ _ Rs) | exact E].
+Qed.
+
+(* ------------------------------------------------------------------ *)
+(* the theorems *)
+
+Definition prefix (l1 l2 : list Z) : Prop := exists r, l2 = l1 ++ r.
+
+(* C11 capacity, relative to mutual exclusion of the channel lock (C03):
+   the channel never holds more than size messages, and the slot a send
+   writes (slot high mod size) is free (holds 0) when it is written.
+   FULL statement (not proved here): the same for every state in
+   [reachable M (init k progs)], i.e. with [reach_excl] replaced by plain
+   reachability; what is missing is exactly C03 for this client:
+   forall s, reachable M (init k progs) s -> excl s. *)
+Theorem multichan_capacity_partial :
+  forall (k : nat) (progs : list (list mop)) (s : st),
+    reach_excl k progs s ->
+    0 <= cell (mem s) c_high - cell (mem s) c_low <= csize s /\
+    forall t c x p kk,
+      stk s t = [CWrite c x; FC (MSBuf p kk)] ->
+      c = c_buf (bidx (csize s) (cell (mem s) c_high)) /\ cell (mem s) c = 0.
+Proof.
+  intros k progs s R.
+  destruct (ireach_excl_complete _ _ _ R) as (x & Rx & <-).
+  pose proof (ireach_excl_ginv _ _ _ Rx) as G.
+  pose proof (g_cn x G) as [Chi Clo Cpre Cord]. unfold Cx, sz in *.
+  split; [lia|].
+  intros t c v p kk Hs.
+  pose proof (g_cs x G t) as L. unfold cs_inv, Cx, sz in L. rewrite Hs in L. cbn in L.
+  destruct L as (Bq & Hr & ->). split; [reflexivity|].
+  rewrite (Bq (cell (mem (base x)) c_high)); [|lia|discriminate|discriminate].
+  rewrite Z.ltb_irrefl. reflexivity.
+Qed.
+
+(* the form asked for: the top frame is the buffer write of slot [bidx size hi] *)
+Corollary multichan_slot_free_partial :
+  forall (k : nat) (progs : list (list mop)) (s : st) t hi x p kk,
+    reach_excl k progs s ->
+    stk s t = [CWrite (c_buf (bidx (csize s) hi)) x; FC (MSBuf p kk)] ->
+    cell (mem s) (c_buf (bidx (csize s) hi)) = 0.
+Proof.
+  intros k progs s t hi x p kk R Hs.
+  destruct (multichan_capacity_partial k progs s R) as [_ H].
+  destruct (H t _ x p kk Hs) as [_ Hz]. exact Hz.
+Qed.
+
+(* C11 exactly once, in order, relative to C03: in the instrumented machine
+   slog lists the messages in the order of the  high := hi + 1  writes (the
+   message is the x of the send's buffer write [CWrite _ x] / MSBuf), rlog
+   lists the values receives return in the order of the  low := lo + 1  writes;
+   rlog is a prefix of slog, and the counters are the lengths of the logs.
+   FULL statement (not proved here): the same for [ireach] without the
+   hypothesis [excl] on every visited state; missing: C03 for this client. *)
+Theorem multichan_exactly_once_in_order_partial :
+  forall (k : nat) (progs : list (list mop)) (x : ist),
+    ireach_excl k progs x ->
+    prefix (rlog x) (slog x) /\
+    cell (mem (base x)) c_high = Zlen (slog x) /\
+    cell (mem (base x)) c_low = Zlen (rlog x).
+Proof.
+  intros k progs x R.
+  pose proof (g_cn x (ireach_excl_ginv _ _ _ R)) as [Chi Clo Cpre Cord]. unfold Cx in *.
+  split; [|split; assumption].
+  exists (skipn (length (rlog x)) (slog x)).
+  pose proof (firstn_skipn (length (rlog x)) (slog x)) as F. rewrite <- Cpre in F.
+  symmetry. exact F.
+Qed.
+
+(* every reach_excl state of the model is the erasure of an instrumented run *)
+Corollary multichan_exactly_once_in_order_states_partial :
+  forall (k : nat) (progs : list (list mop)) (s : st),
+    reach_excl k progs s ->
+    exists x, ireach_excl k progs x /\ base x = s /\ prefix (rlog x) (slog x).
+Proof.
+  intros k progs s R. destruct (ireach_excl_complete _ _ _ R) as (x & Rx & Ex).
+  exists x. split; [exact Rx | split; [exact Ex|]].
+  apply (multichan_exactly_once_in_order_partial k progs x Rx).
+Qed.
+
+(* ------------------------------------------------------------------ *)
+(* the hypothesis is satisfiable: a checker for [excl] on concrete runs, and
+   the run of the stranding witness (MChanProofs.strand_sched) as an example *)
+
+Definition is_uadd0 (f : frame mc) : bool :=
+  match f with UAdd 0%nat => true | _ => false end.
+
+Definition holdsb (s : st) (t : nat) : bool :=
+  match bottom (stk s t) with
+  | Some (MUnl _ _ _) => existsb is_uadd0 (stk s t)
+  | Some (MWt5 _ _ _) =>
+      match slot_mutex (mem s) t with Some 0%nat => true | _ => false end
+      || existsb is_uadd0 (stk s t)
+  | Some c => cs_cont c
+  | None => false
+  end.
+
+Lemma In_uadd0 S : In (UAdd 0%nat) S -> existsb is_uadd0 S = true.
+Proof. intros H. apply existsb_exists. exists (UAdd 0%nat). split; [exact H | reflexivity]. Qed.
+
+Lemma holds_holdsb s t : holds s t -> holdsb s t = true.
+Proof.
+  unfold holds, holdsb. destruct (bottom (stk s t)) as [c|]; [|contradiction].
+  destruct c; try (intros H; exact H); try (apply In_uadd0).
+  intros [H|H]; [rewrite H; reflexivity | rewrite (In_uadd0 _ H); apply orb_true_r].
+Qed.
+
+Definition exclb (s : st) : bool :=
+  forallb (fun t => forallb (fun u => Nat.eqb t u || negb (holdsb s t && holdsb s u))
+                            (seq 0 (nthr s))) (seq 0 (nthr s)).
+
+(* fibers outside the thread count never move *)
+Definition outside_idle (s : st) : Prop :=
+  forall t, (nthr s <= t)%nat -> exists p, stk s t = [Start; FC (MNext p 1)].
+
+Lemma outside_idle_step s t : outside_idle s -> status_of s t = SReady -> outside_idle (fst (step s t)).
+Proof.
+  intros O St u Hu. unfold step in *.
+  destruct (kstepC (csize s) (mem s) t (stk s t)) as [[m1 e1] s1]. cbn in *.
+  assert (t < nthr s)%nat.
+  { unfold status_of in St. destruct (Nat.ltb_spec t (nthr s)); [assumption | discriminate]. }
+  rewrite upd_other by lia. apply O. exact Hu.
+Qed.
+
+Lemma reach_excl_outside k progs s : reach_excl k progs s -> outside_idle s.
+Proof.
+  induction 1 as [|s t R IH St E].
+  - intros t _. cbn. eauto.
+  - apply outside_idle_step; assumption.
+Qed.
+
+Lemma exclb_excl s : outside_idle s -> exclb s = true -> excl s.
+Proof.
+  intros O Hb t u Ht Hu.
+  assert (In_n : forall v, holds s v -> (v < nthr s)%nat).
+  { intros v Hv. destruct (Nat.ltb_spec v (nthr s)); [assumption|].
+    destruct (O v H) as [p Hp]. unfold holds in Hv. rewrite Hp in Hv. cbn in Hv. discriminate. }
+  unfold exclb in Hb. rewrite forallb_forall in Hb.
+  specialize (Hb t ltac:(apply in_seq; specialize (In_n t Ht); lia)).
+  rewrite forallb_forall in Hb.
+  specialize (Hb u ltac:(apply in_seq; specialize (In_n u Hu); lia)).
+  rewrite (holds_holdsb _ _ Ht), (holds_holdsb _ _ Hu) in Hb. cbn in Hb.
+  rewrite orb_false_r in Hb. apply Nat.eqb_eq. exact Hb.
+Qed.
+
+(* run a schedule, checking [excl] after every granted step *)
+Fixpoint irun_excl (x : ist) (sch : list nat) : option ist :=
+  match sch with
+  | [] => Some x
+  | t :: r =>
+      match status_of (base x) t with
+      | SReady => let x' := istep x t in
+                  if exclb (base x') then irun_excl x' r else None
+      | _ => irun_excl x r
+      end
+  end.
+
+Lemma irun_excl_reach k progs sch : forall x x',
+  ireach_excl k progs x -> irun_excl x sch = Some x' -> ireach_excl k progs x'.
+Proof.
+  induction sch as [|t r IH]; intros x x' R H; cbn in H.
+  - inversion H; subst. exact R.
+  - destruct (status_of (base x) t) eqn:St; try (apply (IH x); assumption).
+    destruct (exclb (base (istep x t))) eqn:Eb; [|discriminate].
+    apply (IH (istep x t)); [|exact H].
+    constructor; [exact R | exact St|].
+    apply exclb_excl; [|exact Eb].
+    rewrite istep_erase. apply outside_idle_step; [|exact St].
+    apply (reach_excl_outside k progs). apply ireach_excl_sound. exact R.
+Qed.
+
+(* the stranding run of MChanProofs (capacity 2, 3 senders, 2 receivers) *)
+Definition strand_istate : ist :=
+  match irun_excl (iinit 1 strand_progs) strand_sched with
+  | Some x => x
+  | None => iinit 1 strand_progs
+  end.
+
+Lemma strand_irun : irun_excl (iinit 1 strand_progs) strand_sched = Some strand_istate.
+Proof. vm_compute. reflexivity. Qed.
+
+Lemma strand_ireach_excl : ireach_excl 1 strand_progs strand_istate.
+Proof. apply (irun_excl_reach 1 strand_progs strand_sched (iinit 1 strand_progs)); [constructor | exact strand_irun]. Qed.
+
+Lemma strand_logs :
+  slog strand_istate = [101; 201; 102; 202] /\ rlog strand_istate = [101; 201; 102; 202].
+Proof. vm_compute. split; reflexivity. Qed.
+
+(* the instrumented run erases to the stranded state of MChanProofs: stranding
+   (F-C11) happens on an execution that respects mutual exclusion of the lock *)
+Lemma strand_istate_base : base strand_istate = strand_state.
+Proof. vm_compute. reflexivity. Qed.
+
+Lemma strand_state_reach_excl : reach_excl 1 strand_progs strand_state /\ stranded strand_state.
+Proof.
+  split; [|exact strand_stranded].
+  rewrite <- strand_istate_base. apply ireach_excl_sound. exact strand_ireach_excl.
 Qed.
